@@ -644,7 +644,8 @@ class SSHTransportBase(protocol.Protocol):
             packet
         ) + self.currentEncryptions.makeMAC(self.outgoingPacketSequence, packet)
         self.transport.write(encPacket)
-        self.outgoingPacketSequence += 1
+        # RFC 4253 section 6.4: the sequence number is a uint32 and wraps around.
+        self.outgoingPacketSequence = (self.outgoingPacketSequence + 1) % 2**32
 
     def getPacket(self):
         """
@@ -705,7 +706,7 @@ class SSHTransportBase(protocol.Protocol):
                 self._log.failure("Error decompressing payload")
                 self.sendDisconnect(DISCONNECT_COMPRESSION_ERROR, b"compression error")
                 return
-        self.incomingPacketSequence += 1
+        self.incomingPacketSequence = (self.incomingPacketSequence + 1) % 2**32
         return payload
 
     def _unsupportedVersionReceived(self, remoteVersion):
@@ -732,34 +733,39 @@ class SSHTransportBase(protocol.Protocol):
         """
         self.buf = self.buf + data
         if not self.gotVersion:
-            if len(self.buf) > 4096:
-                self.sendDisconnect(
-                    DISCONNECT_CONNECTION_LOST,
-                    b"Peer version string longer than 4KB. "
-                    b"Preventing a denial of service attack.",
-                )
-                return
-
-            if self.buf.find(b"\n", self.buf.find(b"SSH-")) == -1:
-                return
-
             # RFC 4253 section 4.2 ask for strict `\r\n` line ending.
             # Here we are a bit more relaxed and accept implementations ending
             # only in '\n'.
             # https://tools.ietf.org/html/rfc4253#section-4.2
+            #
+            # Only complete lines are considered: the last element of the
+            # split is the not yet terminated remainder (maybe empty).  The
+            # first complete line starting with 'SSH-' is the version line;
+            # everything after it is binary packet data and must not be
+            # searched for more version lines.
             lines = self.buf.split(b"\n")
-            for p in lines:
+            for i, p in enumerate(lines[:-1]):
                 if p.startswith(b"SSH-"):
-                    self.gotVersion = True
-                    # Since the line was split on '\n' and most of the time
-                    # it uses '\r\n' we may get an extra '\r'.
-                    self.otherVersionString = p.rstrip(b"\r")
-                    remoteVersion = p.split(b"-")[1]
-                    if remoteVersion not in self.supportedVersions:
-                        self._unsupportedVersionReceived(remoteVersion)
-                        return
-                    i = lines.index(p)
-                    self.buf = b"\n".join(lines[i + 1 :])
+                    break
+            else:
+                # No version line yet.  Lines sent before it are ignored
+                # and never handed to the binary packet parser.
+                if len(self.buf) > 4096:
+                    self.sendDisconnect(
+                        DISCONNECT_CONNECTION_LOST,
+                        b"Peer version string longer than 4KB. "
+                        b"Preventing a denial of service attack.",
+                    )
+                return
+            self.gotVersion = True
+            # Since the line was split on '\n' and most of the time
+            # it uses '\r\n' we may get an extra '\r'.
+            self.otherVersionString = p.rstrip(b"\r")
+            remoteVersion = p.split(b"-")[1]
+            if remoteVersion not in self.supportedVersions:
+                self._unsupportedVersionReceived(remoteVersion)
+                return
+            self.buf = b"\n".join(lines[i + 1 :])
         packet = self.getPacket()
         while packet:
             messageNum = ord(packet[0:1])
